@@ -26,6 +26,14 @@ type Profile struct {
 	AppendHeavy     bool    // C08: most mutations are appends
 	SaneCheckpoints bool    // C09: checkpoints never exceed the planner's log end
 	BatchRate       float64 // probability that a mutation is a multi-channel StoreAppendBatch
+	TrimRetry       float64 // probability that a trim is followed by a retry of a key that survived it
+	TrimScenario    float64 // probability that the history starts with the scripted trim -> retry prelude
+}
+
+// planRow is the planner's estimate of one stored row.
+type planRow struct {
+	seq      uint64
+	uid, cno string
 }
 
 type planChan struct {
@@ -36,6 +44,8 @@ type planChan struct {
 	uids  []string
 	cnos  []string
 	phys  uint64
+	rows  []planRow // estimate of the stored rows (for retries of surviving keys)
+	trim  uint64    // highest trim boundary requested so far
 }
 
 type planner struct {
@@ -104,6 +114,7 @@ func (g *planner) noteAppend(c int, recs []Rec) {
 	pc := &g.ch[c]
 	for _, r := range recs {
 		pc.leo++
+		pc.rows = append(pc.rows, planRow{seq: pc.leo, uid: r.Uid, cno: r.Cno})
 		if r.ID != 0 {
 			pc.ids = append(pc.ids, r.ID)
 			g.allIDs = append(g.allIDs, r.ID)
@@ -385,6 +396,128 @@ func (g *planner) truncNote(c int, keepThrough uint64) {
 	if keepThrough < pc.leo {
 		pc.leo = keepThrough
 	}
+	for len(pc.rows) > 0 && pc.rows[len(pc.rows)-1].seq > keepThrough {
+		pc.rows = pc.rows[:len(pc.rows)-1]
+	}
+}
+
+// survivors lists the keyed rows the planner expects above every trim boundary.
+func (g *planner) survivors(c int) []planRow {
+	pc := &g.ch[c]
+	var out []planRow
+	for _, r := range pc.rows {
+		if r.seq > pc.trim && r.seq <= pc.leo && r.uid != "" && r.cno != "" {
+			out = append(out, r)
+		}
+	}
+	return out
+}
+
+// retryOps: a sender retries a (uid, cno) of a row that SURVIVED the prefix trim,
+// under a fresh message id, in any append mode and through any append entry
+// point, with or without a lease close in between but never a database reopen
+// (the warm cache must carry a sound filter); then the lookups, optionally a
+// truncation of the (wrongly or, in trusted mode, rightly) stored retry and the
+// lookups again.
+func (g *planner) retryOps(c int) []Op {
+	sv := g.survivors(c)
+	if len(sv) == 0 {
+		return nil
+	}
+	pc := &g.ch[c]
+	var ops []Op
+	if vh.Chance(g.r, 0.45) {
+		ops = append(ops, Op{K: "release", C: c})
+	}
+	row := sv[g.r.IntN(len(sv))]
+	g.nextID++
+	rec := Rec{ID: g.nextID, Uid: row.uid, Cno: row.cno, Pl: g.payload(), Ts: vh.Pick(g.r, tsPool...)}
+	if rec.Pl == "" {
+		rec.Pl = "72"
+	}
+	mode := vh.Pick(g.r, uint8(0), 0, 1, 1, 2)
+	var op Op
+	switch g.r.IntN(10) {
+	case 0, 1, 2, 3, 4, 5:
+		op = Op{K: "append", C: c, Mode: mode, Recs: []Rec{rec}}
+		if vh.Chance(g.r, 0.3) {
+			op.Base = pc.leo + 1
+		}
+	case 6, 7, 8:
+		op = Op{K: "capp", C: c, Mode: mode, Recs: []Rec{rec}}
+	default:
+		if mode == 2 {
+			mode = 0
+		}
+		other := (c + 1 + g.r.IntN(NChans-1)) % NChans
+		g.nextID++
+		o := Rec{ID: g.nextID, Uid: vh.Pick(g.r, uidPool...), Cno: g.freshCno(), Pl: "6f", Ts: 1}
+		items := []Item{{C: c, Mode: mode, Recs: []Rec{rec}}, {C: other, Mode: 0, Recs: []Rec{o}}}
+		if vh.Chance(g.r, 0.5) {
+			items[0], items[1] = items[1], items[0]
+		}
+		op = Op{K: "cbatch", Items: items}
+		g.noteAppend(other, []Rec{o})
+	}
+	ops = append(ops, op)
+	before := pc.leo
+	if mode == 2 && op.K != "cbatch" {
+		g.noteAppend(c, []Rec{rec}) // trusted: stored next to the surviving row
+	}
+	look := func() {
+		ops = append(ops, Op{K: "idem", C: c, Uid: row.uid, Cno: row.cno})
+		if vh.Chance(g.r, 0.5) {
+			ops = append(ops, Op{K: "bycno", C: c, Cno: row.cno, B: 5})
+		}
+	}
+	look()
+	if vh.Chance(g.r, 0.5) {
+		// drop whatever sits above the log end the planner expected before the retry
+		ops = append(ops, Op{K: "trunc", C: c, A: before + 1})
+		g.truncNote(c, before)
+		look()
+	}
+	return ops
+}
+
+// trimOp draws the entry point: typed with limits, typed without, or the compat
+// one (which needs an adopted boundary: a limited typed trim adopts it first).
+func (g *planner) trimVariant(op Op) []Op {
+	switch g.r.IntN(4) {
+	case 0:
+		op.B, op.D, op.Mode = 0, 0, 1
+		return []Op{op}
+	case 1:
+		first := op
+		first.B, first.D, first.Mode = 1, 0, 0
+		op.Mode = 2
+		return []Op{first, op}
+	}
+	return []Op{op}
+}
+
+// scenario: the scripted prelude  keyed strict appends -> prefix trim that leaves
+// keyed rows -> retry of a surviving key  on a fresh channel.
+func (g *planner) scenario(c int) []Op {
+	k := 3 + g.r.IntN(4)
+	recs := make([]Rec, k)
+	for i := range recs {
+		g.nextID++
+		recs[i] = Rec{ID: g.nextID, Uid: vh.Pick(g.r, uidPool...), Cno: g.freshCno(), Pl: "61", Ts: 5}
+	}
+	mode := vh.Pick(g.r, uint8(0), 0, 1)
+	var ops []Op
+	if vh.Chance(g.r, 0.3) {
+		ops = append(ops, Op{K: "capp", C: c, Mode: mode, Recs: recs})
+	} else {
+		ops = append(ops, Op{K: "append", C: c, Mode: mode, Recs: recs})
+	}
+	g.noteAppend(c, recs)
+	through := uint64(1 + g.r.IntN(k-1))
+	ops = append(ops, g.trimVariant(Op{K: "trim", C: c, A: through})...)
+	g.ch[c].trim = max(g.ch[c].trim, through)
+	ops = append(ops, g.retryOps(c)...)
+	return ops
 }
 
 func (g *planner) mutOp(c int) Op {
@@ -436,6 +569,7 @@ func (g *planner) mutOp(c int) Op {
 		if through > pc.leo {
 			pc.leo = through
 		}
+		pc.trim = max(pc.trim, through)
 		return op
 	case x < 89:
 		hw := uint64(0)
@@ -495,6 +629,9 @@ func GenHistory(r *rand.Rand, p Profile) Input {
 		}
 		return 0
 	}
+	if vh.Chance(r, p.TrimScenario) {
+		ops = append(ops, g.scenario(pickChan())...)
+	}
 	target := len(ops) + n
 	for len(ops) < target {
 		c := pickChan()
@@ -502,7 +639,13 @@ func GenHistory(r *rand.Rand, p Profile) Input {
 			c = 0
 		}
 		if r.IntN(100) < p.MutWeight {
-			ops = append(ops, g.mutOp(c))
+			op := g.mutOp(c)
+			if op.K == "trim" && vh.Chance(r, p.TrimRetry) {
+				ops = append(ops, g.trimVariant(op)...)
+				ops = append(ops, g.retryOps(op.C)...)
+			} else {
+				ops = append(ops, op)
+			}
 		} else {
 			ops = append(ops, g.readOp(c))
 		}
